@@ -102,7 +102,7 @@ theorem Wiring.get_touch (w : Wiring) (c : Comp) (a : Comp) (p : Port) :
   rw [get2_atouch]
 
 theorem Wiring.mem_akeys_add {w : Wiring} {a : Comp} {p : Port} {bq : CPort} {c : Comp} :
-    c ∈ akeys (w.add a p bq) ↔ c ∈ akeys w ∨ c = a := mem_akeys_upsert
+    c ∈ akeys (w.add a p bq) ↔ c ∈ akeys w ∨ c = a := rt_mem_akeys_upsert
 
 theorem Wiring.mem_akeys_touch {w : Wiring} {b c : Comp} :
     c ∈ akeys (w.touch b) ↔ c ∈ akeys w ∨ c = b := mem_akeys_atouch
@@ -192,7 +192,7 @@ theorem Wiring.keys_fromInverse' (iw : InvWiring) (h : iw.WF) (c : Comp) :
   rw [Wiring.mem_akeys_fromInverse]
   constructor
   · rintro ⟨ent, hent, rfl | ⟨pe, hpe, rfl⟩⟩
-    · exact Or.inl (mem_akeys_of_mem hent)
+    · exact Or.inl (rt_mem_akeys_of_mem hent)
     · refine Or.inr ⟨pe.2.2, ent.1, pe.1, ?_⟩
       rw [InvWiring.conn_iff_mem h]
       exact ⟨ent, hent, pe, hpe, rfl, rfl, rfl⟩
@@ -305,7 +305,7 @@ theorem InvWiring.keys_fromWiring' (w : Wiring) (h : w.WF) (c : Comp) :
   rw [InvWiring.mem_akeys_fromWiring]
   constructor
   · rintro ⟨ent, hent, rfl | ⟨pe, hpe, bq, hbq, rfl⟩⟩
-    · exact Or.inl (mem_akeys_of_mem hent)
+    · exact Or.inl (rt_mem_akeys_of_mem hent)
     · refine Or.inr ⟨ent.1, pe.1, bq.2, ?_⟩
       rw [← Wiring.writes_iff_conn h]
       exact ⟨ent, hent, pe, hpe, hbq, rfl⟩
